@@ -54,6 +54,11 @@ class Stack:
         self.seqs = seqs
 
 
+class LengthMismatch(Exception):
+    """Element-wise combination of two sequences whose lengths differ and neither of which has length 1: numpy raises
+    (shapes cannot be broadcast) - a definite fault of the kernel for that array length, not a gap of the model."""
+
+
 class AxisDiscipline(Exception):
     """A subscript that does not address the last axis through a leading Ellipsis."""
 
@@ -147,7 +152,9 @@ def _arith(op, cur, other):
         raise Unmodelled(f"{op} with a scalar")
     if isinstance(other, list):
         if len(other) != len(cur):
-            raise Unmodelled("operands of different length along the axis")
+            if len(other) != 1 and len(cur) != 1:
+                raise LengthMismatch(f"the stencil combines {len(cur)} with {len(other)} points along the axis (numpy cannot broadcast these shapes)")
+            raise Unmodelled("operands of different length along the axis (broadcast of a length-1 axis)")
         if any(isinstance(x, Red) for x in cur + other):
             raise Unmodelled("arithmetic on a min/max")
         if op == "add" or op == "radd":
@@ -188,11 +195,13 @@ def _np_call(v: Obj, n, arg_name):
             raise Unmodelled(f"{fn} over the data axis itself")
         L = {len(s) for s in st.seqs}
         if len(L) != 1:
-            raise Unmodelled("stack of sequences of different length")
+            raise LengthMismatch(f"np.stack of sequences of lengths {sorted(len(s) for s in st.seqs)} along the axis (numpy raises)")
         res = [Red(fn.replace("a", "", 1) if fn.startswith("am") else fn, [s[i] for s in st.seqs]) for i in range(L.pop())]
     elif fn in ("minimum", "maximum", "fmin", "fmax"):
         a, b = interp_np(args[0], n, arg_name), interp_np(args[1], n, arg_name)
         if len(a) != len(b):
+            if len(a) != 1 and len(b) != 1:
+                raise LengthMismatch(f"element-wise min/max of {len(a)} and {len(b)} points along the axis (numpy cannot broadcast these shapes)")
             raise Unmodelled("operands of different length")
         res = [Red("min" if "min" in fn else "max", [x, y]) for x, y in zip(a, b)]
     elif fn in ("add", "subtract"):
